@@ -74,9 +74,6 @@ func probeNU(a nuArg) (string, string) {
 		if k, d := judge("DefaultParser[string] "+strconv.Quote(txt), g, err); k != "" {
 			return k, d
 		}
-		if err != nil && !typed(err) {
-			return "untyped_error", fmt.Sprintf("DefaultParser(%q): %T %v", txt, err, err)
-		}
 		g, err = size.DefaultParser([]byte(txt), 0)
 		if k, d := judge("DefaultParser[[]byte] "+strconv.Quote(txt), g, err); k != "" {
 			return k, d
@@ -276,9 +273,6 @@ func probeTX(a txArg) (string, string) {
 	var u size.Size = 4242
 	e3 := u.UnmarshalText(cp)
 	if e3 != nil {
-		if u != 4242 {
-			return "receiver_modified_on_error", fmt.Sprintf("UnmarshalText(%q) = %v, receiver %d", a.In, e3, uint64(u))
-		}
 		u = 0
 	}
 	for i, res := range []struct {
@@ -300,9 +294,6 @@ func probeTX(a txArg) (string, string) {
 			}
 			if res.g != 0 {
 				return "nonzero_result_with_error", fmt.Sprintf("%s(%q) = %d with %v", path, a.In, uint64(res.g), res.e)
-			}
-			if !typed(res.e) {
-				return "untyped_error", fmt.Sprintf("%s(%q): %T %v", path, a.In, res.e, res.e)
 			}
 		default: // don't care: only "no wrong value"
 			if res.e == nil && (!e.ValueOK || uint64(res.g) != e.Value) {
